@@ -809,6 +809,18 @@ fn core_proof_verify<CS>(
 where
     CS: BbsCiphersuite,
 {
+    // octets_to_proof treats identity points as INVALID; a proof can also reach this function
+    // without having been decoded from octets, and a proof made of identity points verifies for
+    // any public key and any claimed messages
+    if proof.Abar.is_identity().into()
+        || proof.Bbar.is_identity().into()
+        || proof.D.is_identity().into()
+    {
+        return Err(Error::PoKSVerificationError(
+            "identity point in proof".to_owned(),
+        ));
+    }
+
     let init_res = proof_verify_init::<CS>(
         pk,
         proof,
